@@ -20,14 +20,14 @@ CHECKS = {
     "C02": dict(
         technique="runtime monitoring: differential I/O event-log oracle, release and debug-assertion builds of the bytecode interpreter",
         text=("Exploration. As C01 for BcInterpreter at levels 0..3, executed in two builds of the harness: release (tail-called dispatch) and "
-              "a debug-assertions/overflow-checks profile (trampolined dispatch). Bytecode form coverage is counted from the bytecode each executor holds (hook H2)."),
+              "a debug-assertions/overflow-checks profile (trampolined dispatch). Bytecode form coverage is counted from the bytecode each executor holds (hook H2); a committed coverage corpus (corpus/bccov.tsv, one program per op form incl. operand aliasing) is always run. Thorough adds an AddressSanitizer build and an in-process Miri stage."),
         note=TB,
         design="5 C02"),
     "C03": dict(
         technique="runtime monitoring: differential I/O event-log oracle on JIT-executed machine code in forked children, selector-case coverage from hook H2",
         text=("Exploration. As C01 for BaseJitCompiler (levels 0..3 and > 3) with register-pressure and large-immediate workloads; a crash of the generated "
               "code is attributed through the fork boundary. The evidence lists which instruction-selector cases (operand in callee/caller-saved register, "
-              "stack slot, memory, small/large immediate, aliasing, scratch availability) were observed."),
+              "stack slot, memory, small/large immediate, aliasing, scratch availability) were observed; a committed coverage corpus found by coverage-guided search (corpus/jitcov.tsv, 530 programs for 579 selector cases) and the witnesses of fixed defects (corpus/witness.tsv) are always run. Thorough adds valgrind memcheck over JIT-executed code."),
         note=TB + "Selector cases that no generated source program produced are not covered; they are listed as unobserved.",
         design="5 C03"),
     "C04": dict(
@@ -39,7 +39,7 @@ CHECKS = {
         technique="runtime monitoring: bounded-window observation of forked executions (returned flag + shared-memory event log) against divergence proved by exact state recurrence in the canonical interpreter",
         text=("Exploration of a bounded restatement. Divergence of the canonical run is proved (Brent cycle detection on full machine states); each back end x level is then observed in a forked child for a window "
               ">= 100x the canonical time: a return inside the window is a definite violation, the event log at the end of the window must match the canonical events, missing events are confirmed by an isolated 10x re-run. "
-              "Canonically halting cases must return with the canonical log under a watchdog."),
+              "Canonically halting cases (ten times as many, C02 family mix) must return with the canonical log under a watchdog on every back end."),
         note=TB + "'Never returns' cannot be decided by a finite run; only 'returns within the window' is refuted. Wrap-dependent divergence is reachable at 8/16 bit only; roaming divergence is outside the quantifier.",
         design="5 C05"),
     "C17": dict(
